@@ -366,6 +366,40 @@ def main():
     stat_cols = [(a, b, c) for _, a, b, c in sorted(stat_cols)]
     pos_rule = [t for _, t in sorted(pos_rule)]
 
+    # keyword names (templates) looked up in the TEXT dictionary, in order of first use
+    def keyword_uses(fn, dict_exprs):
+        out = []
+
+        def key_text(e):
+            if isinstance(e, ast.Constant) and isinstance(e.value, str):
+                return e.value
+            if isinstance(e, ast.Call) and isinstance(e.func, ast.Attribute) and e.func.attr == 'format' and isinstance(e.func.value, ast.Constant):
+                return e.func.value.value
+            return None
+        for n in ast.walk(fn):
+            k = None
+            if isinstance(n, ast.Subscript) and ast.unparse(n.value) in dict_exprs:
+                k = key_text(n.slice)
+            elif isinstance(n, ast.Call) and isinstance(n.func, ast.Attribute) and n.func.attr == 'get' and ast.unparse(n.func.value) in dict_exprs and n.args:
+                k = key_text(n.args[0])
+            elif isinstance(n, ast.Compare) and len(n.ops) == 1 and isinstance(n.ops[0], ast.In) and ast.unparse(n.comparators[0]) in dict_exprs:
+                k = key_text(n.left)
+            if k is not None:
+                out.append((n.lineno, n.col_offset, k))
+        res = []
+        for _, _, k in sorted(out):
+            if k not in res:
+                res.append(k)
+        return res
+    sample_keywords = keyword_uses(new, ('fcs_file.text',))
+    file_keywords = keyword_uses(find_func(find_class(io, 'FCSFile'), '__init__'), ('self._text',))
+    vendor_marks = []
+    for n in ast.walk(new):
+        if isinstance(n, ast.Compare) and len(n.ops) == 1 and isinstance(n.ops[0], ast.In) and isinstance(n.left, ast.Constant) and isinstance(n.left.value, str) \
+                and "get('CREATOR')" in ast.unparse(n.comparators[0]):
+            vendor_marks.append((n.lineno, n.left.value))
+    vendor_marks = [t for _, t in sorted(vendor_marks)]
+
     strip = lambda xs: [x.lstrip('_') for x in xs]
     facts = {
         'sampleFields': strip(sample_fields), 'finalizeFields': strip(finalize_fields),
@@ -376,6 +410,7 @@ def main():
         'writeSites': ws, 'hashes': hashes,
         'sampleRaiseSites': sample_raises, 'beadsRaiseSites': beads_raises, 'outputSheetSpec': [[n, c] for n, c in sheets],
         'statsHeadColumns': head, 'statsPerChannelSuffixes': per,
+        'sampleKeywords': sample_keywords, 'fileKeywords': file_keywords, 'vendorMarks': vendor_marks,
         'samplePipelineCalls': [list(t) for t in sample_calls], 'statColumnFunctions': [list(t) for t in stat_cols], 'positiveEventsRule': pos_rule,
         'summary': {'sampleFields': len(sample_fields), 'finalizeFields': len(finalize_fields),
                     'pickleFields': len(pickle_fields), 'writeSites': len(ws), 'functions_hashed': len(hashes)},
@@ -402,6 +437,9 @@ def main():
     L.append('def outputSheetSpec : List (String × Bool) := [' + ', '.join('(%s, %s)' % (lstr(n), 'true' if c else 'false') for n, c in sheets) + ']')
     L.append('def statsHeadColumns : List String := [' + ', '.join(lstr(x) for x in head) + ']')
     L.append('def statsPerChannelSuffixes : List String := [' + ', '.join(lstr(x) for x in per) + ']')
+    L.append('def sampleKeywords : List String := [' + ', '.join(lstr(x) for x in sample_keywords) + ']')
+    L.append('def fileKeywords : List String := [' + ', '.join(lstr(x) for x in file_keywords) + ']')
+    L.append('def vendorMarks : List String := [' + ', '.join(lstr(x) for x in vendor_marks) + ']')
     L.append('def samplePipelineCalls : List (String × String × String) := [' + ',\n  '.join('(%s, %s, %s)' % tuple(lstr(x) for x in t) for t in sample_calls) + ']')
     L.append('def statColumnFunctions : List (String × String × String) := [' + ',\n  '.join('(%s, %s, %s)' % tuple(lstr(x) for x in t) for t in stat_cols) + ']')
     L.append('def positiveEventsRule : List String := [' + ', '.join(lstr(x) for x in pos_rule) + ']')
